@@ -12,38 +12,72 @@ namespace PV.Props.C20
 open PV.Format
 
 theorem u16_fits (v : Nat) (h : v < 2 ^ 16) : (u32 v).2 ≤ PV.Gen.kBytesU16 := by
-  sorry
+  have h' : v < 100000 := by
+    have : (2:Nat) ^ 16 = 65536 := by decide
+    omega
+  exact PV.Lemmas.Format.u32_touched_le5 v h'
 theorem i16_fits (v : Int) (h : -(2 ^ 15) ≤ v ∧ v < 2 ^ 15) : (i32 v).2 ≤ PV.Gen.kBytesI16 := by
-  sorry
+  have e15 : (2:Int) ^ 15 = 32768 := by decide
+  rw [e15] at h
+  rw [PV.Lemmas.Format.i32_snd]
+  show _ ≤ 6
+  split
+  · have := PV.Lemmas.Format.u32_touched_le5 (-v).toNat (by omega)
+    omega
+  · have := PV.Lemmas.Format.u32_touched_le5 v.toNat (by omega)
+    omega
 theorem u32_fits (v : Nat) (h : v < 2 ^ 32) : (u32 v).2 ≤ PV.Gen.kBytesU32 := by
-  sorry
+  have _ := h  -- the bound holds for every v
+  exact PV.Lemmas.Format.u32_touched_le10 v
 theorem i32_fits (v : Int) (h : -(2 ^ 31) ≤ v ∧ v < 2 ^ 31) : (i32 v).2 ≤ PV.Gen.kBytesI32 := by
-  sorry
+  have _ := h
+  rw [PV.Lemmas.Format.i32_snd]
+  show _ ≤ 11
+  split
+  · have := PV.Lemmas.Format.u32_touched_le10 (-v).toNat
+    omega
+  · have := PV.Lemmas.Format.u32_touched_le10 v.toNat
+    omega
 theorem u64_fits (v : Nat) (h : v < 2 ^ 64) : (u64 v).2 ≤ PV.Gen.kBytesU64 := by
-  sorry
+  have _ := h  -- the bound holds for every v
+  exact PV.Lemmas.Format.u64_touched_le20 v
 theorem i64_fits (v : Int) (h : -(2 ^ 63) ≤ v ∧ v < 2 ^ 63) : (i64 v).2 ≤ PV.Gen.kBytesI64 := by
-  sorry
+  have e63 : (2:Int) ^ 63 = 9223372036854775808 := by decide
+  rw [e63] at h
+  rw [PV.Lemmas.Format.i64_snd]
+  show _ ≤ 20
+  split
+  · have := PV.Lemmas.Format.u64_touched_le19 (-v).toNat (by omega)
+    omega
+  · have := PV.Lemmas.Format.u64_touched_le20 v.toNat
+    omega
 
 /-- every double: at most 17 significant digits, decimal point in [-323, 309]. -/
 theorem double_fits (neg : Bool) (len : Nat) (dp : Int) (hl : 1 ≤ len ∧ len ≤ 17) (hd : -323 ≤ dp ∧ dp ≤ 309) :
     floatTouched neg len dp ≤ PV.Gen.kBytesDouble := by
-  sorry
+  exact PV.Lemmas.Format.floatTouched_le neg len dp hl hd
 
 /-- every float: at most 9 significant digits, decimal point in [-44, 39]. -/
 theorem float_fits (neg : Bool) (len : Nat) (dp : Int) (hl : 1 ≤ len ∧ len ≤ 9) (hd : -44 ≤ dp ∧ dp ≤ 39) :
     floatTouched neg len dp ≤ PV.Gen.kBytesFloat := by
-  sorry
+  exact PV.Lemmas.Format.floatTouched_le neg len dp ⟨hl.1, by omega⟩ ⟨by omega, by omega⟩
 
 theorem specials_fit (kind : String) (neg : Bool) :
     specialLen kind neg + 1 ≤ PV.Gen.kBytesDouble ∧ specialLen kind neg + 1 ≤ PV.Gen.kBytesFloat := by
-  sorry
+  have h : specialLen kind neg ≤ 4 := by
+    unfold specialLen
+    split
+    · omega
+    · split <;> omega
+  show _ ≤ 26 ∧ _ ≤ 26
+  omega
 
 /-- the per-type reservations never exceed what `Ensure` may be asked for. -/
 theorem kBytes_le_max :
     PV.Gen.kBytesDouble ≤ PV.Gen.kToStringMaxBytes ∧ PV.Gen.kBytesFloat ≤ PV.Gen.kToStringMaxBytes ∧
     PV.Gen.kBytesU64 ≤ PV.Gen.kToStringMaxBytes ∧ PV.Gen.kBytesI64 ≤ PV.Gen.kToStringMaxBytes ∧
     PV.Gen.kBytesPtr ≤ PV.Gen.kToStringMaxBytes := by
-  sorry
+  decide
 
 -- non-vacuity: the longest double, -1.2345678901234567e-6 = "-0.0000012345678901234567"
 example : floatTouched true 17 (-5) = 26 := by decide
